@@ -108,6 +108,17 @@ Proof. vm_compute. reflexivity. Qed.
             e = rng.choice([o for o in ops if o[0] == "equals"]); ops.append(eq(e[1], e[4]))                             # re-declare an existing pair
         for _ in range(rng.randint(2, 5)): ops.append(q())
         return ops
+    # a family declared redundantly with a rounded figure (x = 2 m, m = 5 z and x = 4 n, n = 1.25 o, o = 2.002 z: x is 10 z or 10.01 z):
+    # which route x -> z takes is the library's choice, but the same choice whatever was converted before (fixed corpus)
+    def fam(earlier):
+        f5 = lambda a, r, b: ["equals", a, 1, ["float", str(Fraction(r).numerator), str(Fraction(r).denominator)], b, 1]
+        ops = [["unit", "length"] for _ in range(6)]     # 0 x, 1 m, 2 n, 3 o, 4 z, 5 lonely
+        ops += [f5(0, "2", 1), f5(1, "5", 4), f5(0, "4", 2), f5(2, "1.25", 3), f5(3, "2.002", 4)]
+        for a, b in earlier: ops.append(["query", "in_unit", ["int", "1", "1"], a, 1, b, 1])
+        ops += [["query", "in_unit", ["int", "1", "1"], 0, 1, 4, 1], ["query", "in_unit", ["int", "1", "1"], 0, 1, 4, 1]]
+        return ops
+    for earlier in ([], [(0, 4)], [(0, 5), (5, 4)], [(4, 0)], [(1, 4)], [(2, 1), (1, 4), (4, 5), (3, 4)], [(3, 4), (2, 4)], [(0, 3)], [(2, 4), (0, 1)]):
+        hists.append(fam(earlier))
     for _ in range(40 if c.tier == "quick" else 500):
         hists.append(cyc_history(c.rng))
     with concurrent.futures.ThreadPoolExecutor(16) as ex:
